@@ -22,8 +22,29 @@
 //! vec <esz> <n>                  -> ok beg= len= caps=<c1,c2,..> o/c sum= | err caps=.. o/c | ok none o/c
 //!        `Vec<uN,&Arena>::new_in`, n pushes (growth through `Allocator::grow`), buffer kept as block
 //! vpush <blk> <n>                -> same         re-adopt a `vec` block as a full Vec, push n more
+//!
+//! -- `ArenaString` (src/arena/string.rs); `<blk>` = a string created by `sstr`/`sfrom` whose buffer
+//! -- has not been given back by a reset; every answer below is
+//! --   ok beg=<off|-> len=<string length> cap=<capacity> moved=<0|1> o/c sum=<digest of the CONTENT>
+//! --   | abort o/c      the allocator refuses the buffer: the real code calls `handle_alloc_error`
+//! --                    (observed in a forked child; nothing is executed in this process)
+//! sstr <cap> <n>                 `with_capacity_in(cap)` + `push_str` of n <= cap pattern bytes
+//! sfrom <n>                      `from_str` of n pattern bytes (length == capacity)
+//! spush <blk> <n>                `push_str` of n pattern bytes
+//! schar <blk> <k>                `push(ch)`, ch = 'x' | 'é' | '€' | '😀' for k = 1..4
+//! srepeat <blk> <k> <n>          `push_repeat(ch, n)`
+//! sres|sresx <blk> <n>           `reserve(n)` | `reserve_exact(n)`
+//! sshrink <blk>                  `shrink_to_fit()` (bad-op when it would shrink a non-tail block)
+//! sclear <blk>                   `clear()`
+//! srep <blk> <lo> <hi|-> <n>     `replace_range(lo..hi, n pattern bytes)`, `-` = `lo..`;
+//!                                -> refused o/c when a char-boundary assertion of the real code fires
+//! sonce <blk> <pos> <k> <n>      `replace_once_in_place(old, new)`: old = the k bytes of the content at
+//!                                pos (k times '~', which never occurs, when that is no char-aligned
+//!                                slice), new = n pattern bytes -> ok at=<index|none> beg= ...
 //! ```
-//! Block numbers count the `alloc/zalloc/vec` requests of the history (failed ones included).
+//! Block numbers count the `alloc/zalloc/vec/sstr/sfrom` requests of the history (failed ones included).
+//! Pattern bytes of a string operation: `apat(31 * blk + <length before the operation> + salt, i)`,
+//! printable ASCII without '~'.
 //! After every successful alloc/grow/vec step the block is filled with a pattern derived from its
 //! seed (initially its number); `sum=` is taken before that fill, so it shows what the arena left
 //! there (debug fills, zeroes, preserved prefix). Requests outside the allocator's contract are
@@ -33,14 +54,20 @@
 //! committed prefix of the reservation, aligned *absolutely*, pairwise disjoint, pattern intact
 //! after every operation; a fresh block begins at the first aligned address at or above the old
 //! offset; failure only when that block does not fit, and then offset/commit unchanged; grow
-//! preserves the prefix and stays in place at the tail; zeroed blocks are zero. Failures go to
-//! stderr as `ORACLE-FAIL <line> <what>`.
+//! preserves the prefix and stays in place at the tail; zeroed blocks are zero. After every string
+//! operation: `len <= capacity`, `[ptr, ptr + capacity)` inside the committed prefix below the
+//! offset and disjoint from every other live block, the capacity is the one std's growth policy
+//! predicts, the content equals a `std::string::String` doing the same operation (and is UTF-8), and
+//! every other live block still holds its pattern (a string buffer: all `capacity` bytes as its owner
+//! left them). Failures go to stderr as `ORACLE-FAIL <line> <what>`. If the process is killed by a
+//! signal (SIGSEGV on a write outside the committed range, SIGABRT from one of std's UB checks such as
+//! `Vec::set_len`), the handler prints `DIED-AT <line> signal=<n> <last panic message>` first.
 
 use std::alloc::{Allocator, Layout};
 use std::ptr::NonNull;
 
-use naijascript::arena::Arena;
 use naijascript::arena::verif_hooks as hooks;
+use naijascript::arena::{Arena, ArenaString};
 
 use crate::util::{self, Out, Rng};
 
@@ -80,6 +107,41 @@ pub fn dump_tables(out: &mut Vec<(String, String)>) {
         out.push(("arena_alloc_fill".into(), af.to_string()));
         out.push(("arena_free_fill".into(), ff.to_string()));
         out.push(("arena_guard".into(), guard.to_string()));
+    }
+    // std's RawVec growth policy for byte vectors, observed through `Vec<u8,&Arena>` itself: rows
+    // [cap, len, additional, capacity after reserve(additional), capacity after reserve_exact(additional)]
+    let policy = || -> Option<String> {
+        let a = Arena::new(4 << 20).ok()?;
+        let mut rows: Vec<String> = vec![];
+        for cap in [0usize, 1, 2, 3, 7, 8, 9, 15, 16, 17, 31, 100, 1000] {
+            let mut lens = vec![0, cap / 2, cap.saturating_sub(1), cap];
+            lens.dedup();
+            for len in lens {
+                let spare = cap - len;
+                let mut adds = vec![0, 1, spare, spare + 1, spare + 2, cap, 2 * cap - len, 2 * cap - len + 1, 2 * cap + 9, 5, 8, 9];
+                adds.sort_unstable();
+                adds.dedup();
+                for add in adds {
+                    let mut got = [0usize; 2];
+                    for (k, slot) in got.iter_mut().enumerate() {
+                        unsafe { a.reset(0) };
+                        let mut v: Vec<u8, &Arena> = Vec::with_capacity_in(cap, &a);
+                        if v.capacity() != cap {
+                            return None;
+                        }
+                        v.resize(len, 0);
+                        if k == 0 { v.reserve(add) } else { v.reserve_exact(add) }
+                        *slot = v.capacity();
+                        std::mem::forget(v);
+                    }
+                    rows.push(format!("[{cap},{len},{add},{},{}]", got[0], got[1]));
+                }
+            }
+        }
+        Some(format!("[{}]", rows.join(",")))
+    };
+    if let Some(rows) = policy() {
+        out.push(("arena_reserve_probe".into(), rows));
     }
 }
 
@@ -122,18 +184,59 @@ fn next_cap(cap: usize, len: usize, esz: usize) -> usize {
     (cap * 2).max(len + 1).max(min_nz)
 }
 
+/// Capacity of a byte vector after `reserve(additional)` / `reserve_exact(additional)` (the same
+/// closed forms as `Bump.reserveCap` / `reserveExactCap`; `dump_tables` probes the real thing and
+/// the oracle compares every observed capacity with this prediction).
+fn reserve_cap(cap: usize, len: usize, additional: usize, exact: bool) -> usize {
+    if additional <= cap - len {
+        cap
+    } else if exact {
+        len + additional
+    } else {
+        (cap * 2).max(len + additional).max(8)
+    }
+}
+
+/// Pattern bytes of the string operations: printable ASCII without '~'.
+fn apat(seed: u64, j: usize) -> u8 {
+    0x20 + pat(seed, j) % 94
+}
+
+fn apat_str(seed: u64, n: usize) -> String {
+    (0..n).map(|j| apat(seed, j) as char).collect()
+}
+
+const CHARS: [char; 4] = ['x', 'é', '€', '😀'];
+
 // ------------------------------------------------------------------------------------------------
 // generator
 
 const ALIGNS: &[usize] = &[1, 1, 1, 2, 4, 8, 8, 8, 16, 16, 32, 64, 128, 256, 512, 1024, 2048, 4096, 4096, 8192, 8192, 16384, 32768, 65536, 65536];
 const CAPS: &[usize] = &[1, 65536, 65536, 65537, 100000, 131072, 131072, 196608, 262144];
 
+#[derive(Clone, Copy, PartialEq)]
+enum Kind {
+    Plain,
+    Vec,
+    Str,
+}
+
+#[derive(Clone, Copy)]
+struct GB {
+    beg: usize,
+    len: usize, // a string: its capacity
+    align: usize,
+    live: bool,
+    kind: Kind,
+    slen: usize, // a string: its length
+}
+
 struct GenSt {
     cap: usize,
     base: usize,
     off: usize,
     commit: usize,
-    blocks: Vec<(usize, usize, usize, bool, bool)>, // beg, len, align, live, is_vec
+    blocks: Vec<GB>,
     marks: Vec<usize>,
     borrows: Vec<usize>,
 }
@@ -142,27 +245,72 @@ impl GenSt {
     fn beg(&self, align: usize) -> usize {
         (self.base + self.off + align - 1) / align * align - self.base
     }
-    fn alloc(&mut self, bytes: usize, align: usize, is_vec: bool) -> bool {
+    fn alloc(&mut self, bytes: usize, align: usize, kind: Kind) -> bool {
         let beg = self.beg(align);
         let end = beg + bytes;
         if end > self.cap {
-            self.blocks.push((0, 0, align, false, false));
+            self.blocks.push(GB { beg: 0, len: 0, align, live: false, kind: Kind::Plain, slen: 0 });
             return false;
         }
         self.commit = self.commit.max((end + CHUNK - 1) / CHUNK * CHUNK);
         self.off = end;
-        self.blocks.push((beg, bytes, align, true, is_vec));
+        self.blocks.push(GB { beg, len: bytes, align, live: true, kind, slen: 0 });
         true
     }
-    fn kill_above(&mut self, m: usize) {
-        for b in &mut self.blocks {
-            if b.0 + b.1 > m {
-                b.3 = false;
+    /// `Allocator::grow` of block `b` to `new` bytes (in place at the tail, else a fresh block).
+    fn grow(&mut self, b: usize, new: usize) -> bool {
+        let GB { beg, len, align, .. } = self.blocks[b];
+        if beg + len == self.off {
+            if self.off + (new - len) > self.cap {
+                return false;
+            }
+            self.off += new - len;
+        } else {
+            let nb = self.beg(align);
+            if nb + new > self.cap {
+                return false;
+            }
+            self.off = nb + new;
+            self.blocks[b].beg = nb;
+        }
+        self.blocks[b].len = new;
+        self.commit = self.commit.max((self.off + CHUNK - 1) / CHUNK * CHUNK);
+        true
+    }
+    /// A string's buffer is brought to capacity `new` (first allocation or grow); false = abort.
+    fn str_cap(&mut self, b: usize, new: usize) -> bool {
+        if new <= self.blocks[b].len {
+            return true;
+        }
+        if self.blocks[b].len == 0 {
+            let beg = self.off;
+            if beg + new > self.cap {
+                return false;
+            }
+            self.off = beg + new;
+            self.commit = self.commit.max((self.off + CHUNK - 1) / CHUNK * CHUNK);
+            let g = &mut self.blocks[b];
+            g.beg = beg;
+            g.len = new;
+            g.live = true;
+            true
+        } else {
+            self.grow(b, new)
+        }
+    }
+    fn kill_above(&mut self, m: usize, except: Option<usize>) {
+        for (i, b) in self.blocks.iter_mut().enumerate() {
+            if Some(i) != except && b.beg + b.len > m {
+                b.live = false;
             }
         }
     }
     fn live(&self) -> Vec<usize> {
-        (0..self.blocks.len()).filter(|&i| self.blocks[i].3).collect()
+        (0..self.blocks.len()).filter(|&i| self.blocks[i].live && self.blocks[i].kind != Kind::Str).collect()
+    }
+    /// Strings that can still be used: a buffer that is live, or none at all.
+    fn strs(&self) -> Vec<usize> {
+        (0..self.blocks.len()).filter(|&i| self.blocks[i].kind == Kind::Str && (self.blocks[i].live || self.blocks[i].len == 0)).collect()
     }
 }
 
@@ -183,11 +331,159 @@ fn pick_size(rng: &mut Rng, g: &GenSt, align: usize) -> usize {
     base
 }
 
+/// One string request (lines pushed to `out`), with the generator's shadow of its effect.  Lengths
+/// are chosen around the three cases that matter for a reserve: the result fits the spare room,
+/// fills it exactly, exceeds it by one / by a lot; and so that a grown buffer often ends exactly
+/// where the blocks allocated behind it end.
+fn gen_string_op(rng: &mut Rng, g: &mut GenSt, out: &mut Out) {
+    let strs = g.strs();
+    if strs.is_empty() || rng.chance(1, 5) {
+        let large = if rng.chance(1, 6) { 5000 } else { 64 };
+        let cap = *rng.pick(&[0usize, 1, 7, 8, 9, 10, 15, 16, 16, 17, 32, 100, 300, large]);
+        if rng.chance(1, 3) {
+            out.line(&format!("sfrom {cap}"));
+            if cap == 0 || !g.alloc(cap, 1, Kind::Str) {
+                if cap == 0 {
+                    g.blocks.push(GB { beg: 0, len: 0, align: 1, live: false, kind: Kind::Str, slen: 0 });
+                }
+            } else {
+                g.blocks.last_mut().unwrap().slen = cap;
+            }
+        } else {
+            let n = *rng.pick(&[0usize, cap / 2, cap * 5 / 8, cap.saturating_sub(1), cap]);
+            out.line(&format!("sstr {cap} {n}"));
+            if cap == 0 {
+                g.blocks.push(GB { beg: 0, len: 0, align: 1, live: false, kind: Kind::Str, slen: 0 });
+            } else if g.alloc(cap, 1, Kind::Str) {
+                g.blocks.last_mut().unwrap().slen = n;
+            }
+        }
+        // half of the time something is allocated right behind the new string, often exactly as
+        // many bytes as its capacity (so that doubling it ends at the offset)
+        if rng.chance(1, 2) {
+            let bytes = *rng.pick(&[cap, cap, 8, 1, 16, 24, cap.max(8)]);
+            out.line(&format!("alloc {bytes} 1"));
+            g.alloc(bytes, 1, Kind::Plain);
+        }
+        return;
+    }
+    let b = *rng.pick(&strs);
+    let GB { beg, len: cap, slen: len, .. } = g.blocks[b];
+    let tail = cap > 0 && beg + cap == g.off;
+    // the sizes below are derived from the spare room; keep the few big strings from breeding more
+    let spare_real = cap - len;
+    let spare = if spare_real > 700 && !rng.chance(1, 8) { 3 } else { spare_real };
+    // bytes between the end of the buffer and the offset: growing the capacity by exactly this much
+    // makes `ptr + new_size == base + offset`
+    // (only when that is a string-sized amount)
+    let behind = if cap > 0 && !tail && g.off - (beg + cap) <= 600 { g.off - (beg + cap) } else { 0 };
+    let big = if rng.chance(1, 12) { 3000 } else { 40 };
+    let grow_by = |rng: &mut Rng| -> usize {
+        *rng.pick(&[0usize, 1, spare.saturating_sub(1), spare, spare + 1, spare + 2, spare + behind, spare + behind, (cap + spare).min(700), (2 * cap + 1).min(700), 40, big])
+    };
+    match rng.below(100) {
+        0..=17 => {
+            let n = grow_by(rng);
+            out.line(&format!("spush {b} {n}"));
+            if g.str_cap(b, reserve_cap(cap, len, n, false)) {
+                g.blocks[b].slen = len + n;
+            }
+        }
+        18..=22 => {
+            let k = if rng.chance(2, 3) { 1 } else { 1 + rng.below(4) as usize };
+            let n = CHARS[k - 1].len_utf8();
+            out.line(&format!("schar {b} {k}"));
+            if g.str_cap(b, reserve_cap(cap, len, n, false)) {
+                g.blocks[b].slen = len + n;
+            }
+        }
+        23..=27 => {
+            let k = if rng.chance(2, 3) { 1 } else { 1 + rng.below(4) as usize };
+            let cnt = *rng.pick(&[0usize, 1, 2, spare, spare + 1, 33]);
+            let n = CHARS[k - 1].len_utf8() * cnt;
+            out.line(&format!("srepeat {b} {k} {cnt}"));
+            if g.str_cap(b, reserve_cap(cap, len, n, false)) {
+                g.blocks[b].slen = len + n;
+            }
+        }
+        28..=39 => {
+            let exact = rng.chance(1, 2);
+            let n = grow_by(rng);
+            out.line(&format!("{} {b} {n}", if exact { "sresx" } else { "sres" }));
+            g.str_cap(b, reserve_cap(cap, len, n, exact));
+        }
+        40..=45 => {
+            out.line(&format!("sshrink {b}"));
+            if cap > len {
+                if len == 0 {
+                    g.blocks[b].len = 0;
+                    g.blocks[b].live = false;
+                } else if tail {
+                    g.blocks[b].len = len;
+                    g.off = beg + len;
+                    let m = g.off;
+                    g.kill_above(m, Some(b));
+                }
+            }
+        }
+        46..=49 => {
+            out.line(&format!("sclear {b}"));
+            g.blocks[b].slen = 0;
+        }
+        50..=59 => {
+            let pos = if len == 0 { 0 } else { rng.below(len as u64 + 1) as usize };
+            let k = *rng.pick(&[0usize, 1, 2, 3, len - pos, len - pos + 1]);
+            let n = *rng.pick(&[0usize, k, k + 1, k.saturating_sub(1), k + spare, k + spare + 1, k + spare + behind]);
+            out.line(&format!("sonce {b} {pos} {k} {n}"));
+            // the replacement happens when the slice exists (or k == 0); an earlier occurrence has the same length
+            if pos + k <= len {
+                let add = n.saturating_sub(k);
+                if (k > 0 || n > 0) && g.str_cap(b, reserve_cap(cap, len, add, false)) {
+                    g.blocks[b].slen = len - k + n;
+                }
+            }
+        }
+        _ => {
+            // replace_range: start / middle / end / empty range / whole string / clamped / refused
+            let (lo, hi): (usize, Option<usize>) = match rng.below(12) {
+                0 => (0, Some(rng.below(len as u64 + 1) as usize)),
+                1 => {
+                    let lo = rng.below(len as u64 + 1) as usize;
+                    (lo, Some(lo + rng.below((len - lo) as u64 + 1) as usize))
+                }
+                2 => (rng.below(len as u64 + 1) as usize, Some(len)),
+                3 => {
+                    let p = rng.below(len as u64 + 1) as usize;
+                    (p, Some(p))
+                }
+                4 => (0, Some(len)),
+                5 => (len, Some(len)),
+                6 => (0, Some(0)),
+                7 => (rng.below(len as u64 + 1) as usize, None),
+                8 => (0, Some(1.min(len))),
+                9 => (len.saturating_sub(1), Some(len)),
+                10 => (rng.below(len as u64 + 3) as usize, Some(rng.below(len as u64 + 3) as usize)),
+                _ => (len + 1, None),
+            };
+            let off = lo.min(len);
+            let del = hi.unwrap_or(usize::MAX).saturating_sub(off).min(len - off);
+            let n = *rng.pick(&[0usize, del, del + 1, del.saturating_sub(1), del / 2, del + spare.saturating_sub(1), del + spare, del + spare + 1,
+                                del + spare + 2, del + spare + behind, (del + cap + spare + 3).min(900), 9, 45]);
+            out.line(&format!("srep {b} {lo} {} {n}", hi.map_or("-".to_string(), |h| h.to_string())));
+            let in_range = lo <= len && hi.is_none_or(|h| h <= len);
+            if in_range && (del > 0 || n > 0) && g.str_cap(b, reserve_cap(cap, len, n.saturating_sub(del), false)) {
+                g.blocks[b].slen = len - del + n;
+            }
+        }
+    }
+}
+
 fn generate(args: &[String]) -> i32 {
     let seed = util::opt_u64(args, "--seed", 1);
     let n = util::opt_u64(args, "--n", 1000);
     let maxlen = util::opt_u64(args, "--maxlen", 40);
     let bias_align = util::opt(args, "--bias") == Some("align");
+    let bias_str = util::opt(args, "--bias") == Some("str");
     let mut rng = Rng::new(seed ^ 0xC11);
     let mut out = Out::new();
     for _ in 0..n {
@@ -196,17 +492,23 @@ fn generate(args: &[String]) -> i32 {
         let page = if rng.chance(1, 4) { 0 } else { rng.below(16) as usize };
         out.line(&format!("new {cap_req} {page}"));
         let cap = (cap_req.max(1) + CHUNK - 1) / CHUNK * CHUNK;
+        // every third history is about strings (half of its requests), the others have a few
+        let str_pct: u64 = if bias_str { 70 } else if rng.chance(1, 3) { 50 } else { 8 };
         let mut g = GenSt { cap, base: page * 4096, off: 0, commit: 0, blocks: vec![], marks: vec![], borrows: vec![] };
         for _ in 0..len {
+            if rng.below(100) < str_pct {
+                gen_string_op(&mut rng, &mut g, &mut out);
+                continue;
+            }
             let live = g.live();
-            let tail: Option<usize> = live.iter().copied().find(|&i| g.blocks[i].0 + g.blocks[i].1 == g.off);
+            let tail: Option<usize> = live.iter().copied().find(|&i| g.blocks[i].beg + g.blocks[i].len == g.off);
             match rng.below(100) {
                 0..=29 => {
                     let align = if bias_align { *rng.pick(&[4096usize, 8192, 16384, 32768, 65536]) } else { *rng.pick(ALIGNS) };
                     let bytes = pick_size(&mut rng, &g, align);
                     let z = rng.chance(1, 4);
                     out.line(&format!("{} {bytes} {align}", if z { "zalloc" } else { "alloc" }));
-                    g.alloc(bytes, align, false);
+                    g.alloc(bytes, align, Kind::Plain);
                 }
                 30..=44 if !live.is_empty() => {
                     // grow: prefer the tail block half of the time
@@ -214,40 +516,21 @@ fn generate(args: &[String]) -> i32 {
                         Some(t) if rng.chance(1, 2) => t,
                         _ => *rng.pick(&live),
                     };
-                    let (beg, blen, align, _, _) = g.blocks[b];
+                    let GB { beg, len: blen, align, .. } = g.blocks[b];
                     let extra = pick_size(&mut rng, &g, if beg + blen == g.off { 1 } else { align });
                     let new = if rng.chance(1, 8) { blen } else if beg + blen == g.off { blen + extra } else { extra.max(blen) };
                     out.line(&format!("{} {b} {new}", if rng.chance(1, 3) { "zgrow" } else { "grow" }));
-                    if beg + blen == g.off {
-                        if g.off + (new - blen) <= g.cap {
-                            g.off += new - blen;
-                            g.commit = g.commit.max((g.off + CHUNK - 1) / CHUNK * CHUNK);
-                            g.blocks[b].1 = new;
-                        }
-                    } else {
-                        let nb = g.beg(align);
-                        if nb + new <= g.cap {
-                            g.off = nb + new;
-                            g.commit = g.commit.max((g.off + CHUNK - 1) / CHUNK * CHUNK);
-                            g.blocks[b].0 = nb;
-                            g.blocks[b].1 = new;
-                        }
-                    }
+                    g.grow(b, new);
                 }
                 45..=51 if tail.is_some() => {
                     let b = tail.unwrap();
-                    let blen = g.blocks[b].1;
+                    let blen = g.blocks[b].len;
                     let new = *rng.pick(&[0usize, blen / 2, blen.saturating_sub(1), blen]);
                     out.line(&format!("shrink {b} {new}"));
-                    g.off = g.blocks[b].0 + new;
-                    g.blocks[b].1 = new;
+                    g.off = g.blocks[b].beg + new;
+                    g.blocks[b].len = new;
                     let m = g.off;
-                    let keep = b;
-                    for (i, bl) in g.blocks.iter_mut().enumerate() {
-                        if i != keep && bl.0 + bl.1 > m {
-                            bl.3 = false;
-                        }
-                    }
+                    g.kill_above(m, Some(b));
                 }
                 52..=58 => {
                     out.line("mark");
@@ -258,7 +541,8 @@ fn generate(args: &[String]) -> i32 {
                     out.line(&format!("reset {k}"));
                     if g.marks[k] <= g.off {
                         g.off = g.marks[k];
-                        g.kill_above(g.off);
+                        let m = g.off;
+                        g.kill_above(m, None);
                     }
                 }
                 68..=72 => {
@@ -274,7 +558,7 @@ fn generate(args: &[String]) -> i32 {
                     let s = g.borrows.pop().unwrap();
                     if s <= g.off {
                         g.off = s;
-                        g.kill_above(s);
+                        g.kill_above(s, None);
                         g.commit = g.commit.min((g.off + CHUNK - 1) / CHUNK * CHUNK);
                     }
                 }
@@ -304,45 +588,30 @@ fn generate(args: &[String]) -> i32 {
                         l = capv.min(cnt);
                     }
                     if capv == 0 {
-                        g.blocks.push((0, 0, esz, false, false));
+                        g.blocks.push(GB { beg: 0, len: 0, align: esz, live: false, kind: Kind::Plain, slen: 0 });
                     } else {
-                        g.alloc(capv * esz, esz, true);
+                        g.alloc(capv * esz, esz, Kind::Vec);
                     }
                 }
                 _ => {
-                    let vecs: Vec<usize> = live.iter().copied().filter(|&i| g.blocks[i].4).collect();
+                    let vecs: Vec<usize> = live.iter().copied().filter(|&i| g.blocks[i].kind == Kind::Vec).collect();
                     if vecs.is_empty() {
                         let align = *rng.pick(&[1usize, 2, 4, 8, 16]);
                         let bytes = rng.below(200) as usize;
                         out.line(&format!("alloc {bytes} {align}"));
-                        g.alloc(bytes, align, false);
+                        g.alloc(bytes, align, Kind::Plain);
                     } else {
                         let b = *rng.pick(&vecs);
                         let cnt = *rng.pick(&[1usize, 3, 40, 3000]);
                         out.line(&format!("vpush {b} {cnt}"));
                         // effect not tracked precisely: the block moves unless it is the tail
-                        let (beg, blen, align, _, _) = g.blocks[b];
-                        let esz = align;
+                        let GB { len: blen, align: esz, .. } = g.blocks[b];
                         let mut capv = blen / esz;
                         let target = capv + cnt;
                         while capv < target {
                             capv = next_cap(capv, capv, esz);
                         }
-                        let new = capv * esz;
-                        if beg + blen == g.off {
-                            if g.off + (new - blen) <= g.cap {
-                                g.off += new - blen;
-                                g.blocks[b].1 = new;
-                            }
-                        } else {
-                            let nb = g.beg(align);
-                            if nb + new <= g.cap {
-                                g.off = nb + new;
-                                g.blocks[b].0 = nb;
-                                g.blocks[b].1 = new;
-                            }
-                        }
-                        g.commit = g.commit.max((g.off + CHUNK - 1) / CHUNK * CHUNK);
+                        g.grow(b, capv * esz);
                     }
                 }
             }
@@ -367,6 +636,17 @@ struct Blk {
     created: bool,
     live: bool,
     esz: usize, // 0 = not a Vec buffer
+    st: Option<StrSt>, // the buffer of an `ArenaString` (`len` is its capacity)
+}
+
+/// Shadow of an `ArenaString`.
+#[derive(Clone)]
+struct StrSt {
+    len: usize,
+    /// all `capacity` bytes of the buffer as the owner left them (checked after every operation)
+    shadow: Vec<u8>,
+    /// a `std::string::String` doing the same operations
+    reference: String,
 }
 
 struct H {
@@ -458,7 +738,11 @@ impl H {
             }
             let p = self.bptr(b.beg);
             for j in 0..b.len {
-                if unsafe { p.add(j).read_volatile() } != pat(b.seed, j) {
+                let want = match &b.st {
+                    Some(st) => st.shadow[j],
+                    None => pat(b.seed, j),
+                };
+                if unsafe { p.add(j).read_volatile() } != want {
                     return Some(format!("clobbered live block {i} at byte {j}"));
                 }
             }
@@ -467,14 +751,73 @@ impl H {
     }
 }
 
+/// Line being executed and the last panic message, for the signal handler (which must not allocate:
+/// the signal may arrive inside the allocator).
+static CUR_LINE: std::sync::atomic::AtomicUsize = std::sync::atomic::AtomicUsize::new(0);
+static PANIC_LEN: std::sync::atomic::AtomicUsize = std::sync::atomic::AtomicUsize::new(0);
+static mut PANIC_MSG: [u8; 400] = [0; 400];
+
+fn remember_panic(msg: &str) {
+    use std::sync::atomic::Ordering::SeqCst;
+    PANIC_LEN.store(0, SeqCst);
+    let buf = &raw mut PANIC_MSG as *mut u8;
+    let mut n = 0;
+    for &b in msg.as_bytes().iter().take(400) {
+        unsafe { buf.add(n).write(if b == b'\n' { b' ' } else { b }) };
+        n += 1;
+    }
+    PANIC_LEN.store(n, SeqCst);
+}
+
+extern "C" fn died(sig: libc::c_int) {
+    use std::sync::atomic::Ordering::SeqCst;
+    // the process is lost anyway: say where, then leave without unwinding or flushing
+    fn put(bytes: &[u8]) {
+        unsafe { libc::write(2, bytes.as_ptr() as *const libc::c_void, bytes.len()) };
+    }
+    fn put_num(mut x: usize) {
+        let mut d = [0u8; 20];
+        let mut i = d.len();
+        loop {
+            i -= 1;
+            d[i] = b'0' + (x % 10) as u8;
+            x /= 10;
+            if x == 0 {
+                break;
+            }
+        }
+        put(&d[i..]);
+    }
+    put(b"\nDIED-AT ");
+    put_num(CUR_LINE.load(SeqCst));
+    put(b" signal=");
+    put_num(sig as usize);
+    put(b" ");
+    let n = PANIC_LEN.load(SeqCst).min(400);
+    put(unsafe { std::slice::from_raw_parts(&raw const PANIC_MSG as *const u8, n) });
+    put(b"\n");
+    unsafe { libc::_exit(128 + sig) }
+}
+
 fn run() -> i32 {
-    util::silence_panics();
+    // panics are answers (`panic`), not noise; the message of a non-unwinding one (std's UB checks)
+    // is kept for the signal handler
+    std::panic::set_hook(Box::new(|info| remember_panic(&info.to_string())));
+    unsafe {
+        // (no symbolised backtrace from `handle_alloc_error` in the forked children: 70 ms each)
+        std::env::set_var("RUST_BACKTRACE", "0");
+        for sig in [libc::SIGABRT, libc::SIGSEGV, libc::SIGBUS] {
+            libc::signal(sig, died as extern "C" fn(libc::c_int) as libc::sighandler_t);
+        }
+    }
     let lines = util::stdin_lines();
     let mut out = Out::new();
     let mut h = H::new();
     let mut oracle_fails = 0u64;
     let mut skipping = false;
     for (lineno, line) in lines.iter().enumerate() {
+        CUR_LINE.store(lineno + 1, std::sync::atomic::Ordering::SeqCst);
+        PANIC_LEN.store(0, std::sync::atomic::Ordering::SeqCst);
         let w: Vec<&str> = line.split_whitespace().collect();
         if matches!(w.first(), Some(&"new")) {
             skipping = false;
@@ -482,6 +825,10 @@ fn run() -> i32 {
         if skipping {
             out.line("skipped");
             continue;
+        }
+        if lines.len() <= 2000 {
+            // a replay: flush every answer, so that the table is complete if the process dies
+            out = Out::new();
         }
         match util::catch(|| step(&w, &mut h)) {
             Ok((ans, oracle)) => {
@@ -619,7 +966,7 @@ fn step(w: &[&str], h: &mut H) -> Ans {
                     }
                     if oracle.is_some() && (ptr < h.base || beg.saturating_add(len) > h.commit()) {
                         // not safe to touch: record as dead
-                        h.blocks.push(Blk { beg: 0, len: 0, align, seed: id as u64, created: false, live: false, esz: 0 });
+                        h.blocks.push(Blk { beg: 0, len: 0, align, seed: id as u64, created: false, live: false, esz: 0, st: None });
                         return (format!("ok beg={beg} len={len} mod={} {}", ptr % align, h.oc()), oracle);
                     }
                     if zeroed && oracle.is_none() {
@@ -629,14 +976,14 @@ fn step(w: &[&str], h: &mut H) -> Ans {
                         }
                     }
                     let sum = digest_at(h.base as *const u8, beg, len);
-                    let b = Blk { beg, len, align, seed: id as u64, created: true, live: true, esz: 0 };
+                    let b = Blk { beg, len, align, seed: id as u64, created: true, live: true, esz: 0, st: None };
                     h.write_pattern(&b);
                     h.blocks.push(b);
                     let oracle = oracle.or_else(|| h.check_all());
                     (format!("ok beg={beg} len={len} mod={} {} sum={sum}", ptr % align, h.oc()), oracle)
                 }
                 Err(_) => {
-                    h.blocks.push(Blk { beg: 0, len: 0, align, seed: id as u64, created: false, live: false, esz: 0 });
+                    h.blocks.push(Blk { beg: 0, len: 0, align, seed: id as u64, created: false, live: false, esz: 0, st: None });
                     let mut oracle = None;
                     if h.off() != off0 || h.commit() != commit0 {
                         oracle = Some(format!("failed allocation changed the arena: {} (was off={off0} commit={commit0})", h.oc()));
@@ -651,7 +998,7 @@ fn step(w: &[&str], h: &mut H) -> Ans {
             let zeroed = *op == "zgrow";
             let (Ok(blk), Ok(new)) = (blk.parse::<usize>(), new.parse::<usize>()) else { return bad() };
             let Some(b) = h.blocks.get(blk).cloned() else { return bad() };
-            if !b.live || new < b.len || new > MAX_BYTES {
+            if !b.live || b.st.is_some() || new < b.len || new > MAX_BYTES {
                 return bad();
             }
             let (Ok(old_l), Ok(new_l)) = (Layout::from_size_align(b.len, b.align), Layout::from_size_align(new, b.align)) else { return bad() };
@@ -718,7 +1065,7 @@ fn step(w: &[&str], h: &mut H) -> Ans {
         ["shrink", blk, new] => {
             let (Ok(blk), Ok(new)) = (blk.parse::<usize>(), new.parse::<usize>()) else { return bad() };
             let Some(b) = h.blocks.get(blk).cloned() else { return bad() };
-            if !b.live || new > b.len || b.beg + b.len != h.off() {
+            if !b.live || b.st.is_some() || new > b.len || b.beg + b.len != h.off() {
                 return bad();
             }
             let (Ok(old_l), Ok(new_l)) = (Layout::from_size_align(b.len, b.align), Layout::from_size_align(new, b.align)) else { return bad() };
@@ -793,7 +1140,7 @@ fn step(w: &[&str], h: &mut H) -> Ans {
         ["fill", blk, seed] => {
             let (Ok(blk), Ok(seed)) = (blk.parse::<usize>(), seed.parse::<u64>()) else { return bad() };
             let Some(b) = h.blocks.get_mut(blk) else { return bad() };
-            if !b.live {
+            if !b.live || b.st.is_some() {
                 return bad();
             }
             b.seed = seed;
@@ -829,7 +1176,7 @@ fn step(w: &[&str], h: &mut H) -> Ans {
                 return bad();
             }
             let id = h.blocks.len();
-            h.blocks.push(Blk { beg: 0, len: 0, align: esz.max(1), seed: id as u64, created: false, live: false, esz });
+            h.blocks.push(Blk { beg: 0, len: 0, align: esz.max(1), seed: id as u64, created: false, live: false, esz, st: None });
             match esz {
                 1 => vec_run::<u8>(h, id, n, |s, i| pat(s, i)),
                 2 => vec_run::<u16>(h, id, n, |s, i| u16::from_le_bytes(std::array::from_fn(|k| pat(s, 2 * i + k)))),
@@ -855,8 +1202,363 @@ fn step(w: &[&str], h: &mut H) -> Ans {
                 _ => bad(),
             }
         }
+        ["sstr", cap, n] => {
+            let (Ok(cap), Ok(n)) = (cap.parse::<usize>(), n.parse::<usize>()) else { return bad() };
+            if cap > (1 << 20) || n > cap {
+                return bad();
+            }
+            str_new(h, SOp::New { cap, n })
+        }
+        ["sfrom", n] => {
+            let Ok(n) = n.parse::<usize>() else { return bad() };
+            if n > (1 << 20) {
+                return bad();
+            }
+            str_new(h, SOp::From { n })
+        }
+        [op @ ("spush" | "schar" | "sres" | "sresx"), blk, n] => {
+            let (Ok(blk), Ok(n)) = (blk.parse::<usize>(), n.parse::<usize>()) else { return bad() };
+            if n > (1 << 20) || (*op == "schar" && !(1..=4).contains(&n)) {
+                return bad();
+            }
+            let sop = match *op {
+                "spush" => SOp::Push { n },
+                "schar" => SOp::Char { k: n },
+                "sres" => SOp::Reserve { n, exact: false },
+                _ => SOp::Reserve { n, exact: true },
+            };
+            str_run(h, blk, sop)
+        }
+        ["srepeat", blk, k, n] => {
+            let (Ok(blk), Ok(k), Ok(n)) = (blk.parse::<usize>(), k.parse::<usize>(), n.parse::<usize>()) else { return bad() };
+            if n > (1 << 18) || !(1..=4).contains(&k) {
+                return bad();
+            }
+            str_run(h, blk, SOp::Repeat { k, n })
+        }
+        ["sshrink", blk] => {
+            let Ok(blk) = blk.parse::<usize>() else { return bad() };
+            str_run(h, blk, SOp::Shrink)
+        }
+        ["sclear", blk] => {
+            let Ok(blk) = blk.parse::<usize>() else { return bad() };
+            str_run(h, blk, SOp::Clear)
+        }
+        ["srep", blk, lo, hi, n] => {
+            let (Ok(blk), Ok(lo), Ok(n)) = (blk.parse::<usize>(), lo.parse::<usize>(), n.parse::<usize>()) else { return bad() };
+            let hi = if *hi == "-" { None } else if let Ok(x) = hi.parse::<usize>() { Some(x) } else { return bad() };
+            if n > (1 << 20) || lo > (1 << 40) || hi.is_some_and(|x| x > (1 << 40)) {
+                return bad();
+            }
+            str_run(h, blk, SOp::Replace { lo, hi, n })
+        }
+        ["sonce", blk, pos, k, n] => {
+            let (Ok(blk), Ok(pos), Ok(k), Ok(n)) = (blk.parse::<usize>(), pos.parse::<usize>(), k.parse::<usize>(), n.parse::<usize>()) else {
+                return bad();
+            };
+            if n > (1 << 20) || k > (1 << 20) || pos > (1 << 40) {
+                return bad();
+            }
+            str_run(h, blk, SOp::Once { pos, k, n })
+        }
         _ => bad(),
     }
+}
+
+// ------------------------------------------------------------------------------------------------
+// ArenaString
+
+#[derive(Clone, Copy)]
+enum SOp {
+    New { cap: usize, n: usize },
+    From { n: usize },
+    Push { n: usize },
+    Char { k: usize },
+    Repeat { k: usize, n: usize },
+    Reserve { n: usize, exact: bool },
+    Shrink,
+    Clear,
+    Replace { lo: usize, hi: Option<usize>, n: usize },
+    Once { pos: usize, k: usize, n: usize },
+}
+
+/// What the real string looked like after an operation.
+struct Seen {
+    ptr: usize,
+    len: usize,
+    cap: usize,
+    refused: bool,
+}
+
+/// Run `op` on the real `ArenaString` whose buffer is `[ptr, ptr + cap)` with length `len` (cap 0:
+/// a string that has not allocated).  `text`/`old` are the operand strings.  The string is forgotten
+/// afterwards (its buffer stays in the arena as a numbered block).
+fn str_exec(arena: &Arena, ptr: *mut u8, len: usize, cap: usize, op: SOp, text: &str, old: &str) -> Seen {
+    let mut s: ArenaString = match op {
+        SOp::New { cap, .. } => ArenaString::with_capacity_in(cap, arena),
+        SOp::From { .. } => ArenaString::from_str(arena, text),
+        _ if cap == 0 => ArenaString::new_in(arena),
+        _ => unsafe { ArenaString::from_utf8_unchecked(Vec::from_raw_parts_in(ptr, len, cap, arena)) },
+    };
+    let mut refused = false;
+    match op {
+        SOp::New { .. } | SOp::Push { .. } => s.push_str(text),
+        SOp::From { .. } => {}
+        SOp::Char { k } => s.push(CHARS[k - 1]),
+        SOp::Repeat { k, n } => s.push_repeat(CHARS[k - 1], n),
+        SOp::Reserve { n, exact: false } => s.reserve(n),
+        SOp::Reserve { n, exact: true } => s.reserve_exact(n),
+        SOp::Shrink => s.shrink_to_fit(),
+        SOp::Clear => s.clear(),
+        SOp::Replace { lo, hi, .. } => {
+            // the char-boundary assertions of `replace_range` are ordinary panics: a clean refusal
+            let r = match hi {
+                Some(hi) => util::catch(|| s.replace_range(lo..hi, text)),
+                None => util::catch(|| s.replace_range(lo.., text)),
+            };
+            refused = r.is_err();
+        }
+        SOp::Once { .. } => s.replace_once_in_place(old, text),
+    }
+    let seen = Seen { ptr: s.as_bytes().as_ptr() as usize, len: s.len(), cap: s.capacity(), refused };
+    std::mem::forget(s);
+    seen
+}
+
+/// Does `f` kill a forked copy of this process?  (Used for requests the allocator must refuse:
+/// `Vec::reserve` answers an `AllocError` with `handle_alloc_error`, i.e. abort.)  When no child can be
+/// made the answer is yes: the caller only asks about requests that cannot fit.
+fn dies_in_child(f: impl FnOnce()) -> bool {
+    unsafe {
+        let pid = libc::fork();
+        if pid < 0 {
+            return true;
+        }
+        if pid == 0 {
+            // die quietly (no core dump, no message)
+            extern "C" fn quit(_: libc::c_int) {
+                unsafe { libc::_exit(1) }
+            }
+            for sig in [libc::SIGABRT, libc::SIGSEGV, libc::SIGBUS] {
+                libc::signal(sig, quit as extern "C" fn(libc::c_int) as libc::sighandler_t);
+            }
+            let devnull = libc::open(c"/dev/null".as_ptr(), libc::O_WRONLY);
+            if devnull >= 0 {
+                libc::dup2(devnull, 2);
+            }
+            let _ = util::catch(f);
+            libc::_exit(0);
+        }
+        let mut status = 0;
+        libc::waitpid(pid, &mut status, 0);
+        !(libc::WIFEXITED(status) && libc::WEXITSTATUS(status) == 0)
+    }
+}
+
+fn str_new(h: &mut H, op: SOp) -> Ans {
+    let id = h.blocks.len();
+    h.blocks.push(Blk {
+        beg: 0,
+        len: 0,
+        align: 1,
+        seed: id as u64,
+        created: false,
+        live: false,
+        esz: 0,
+        st: Some(StrSt { len: 0, shadow: vec![], reference: String::new() }),
+    });
+    let (ans, oracle, made) = str_do(h, id, op);
+    if !made {
+        // the constructor aborted: there is no such string
+        h.blocks[id].st = None;
+    }
+    (ans, oracle)
+}
+
+fn str_run(h: &mut H, id: usize, op: SOp) -> Ans {
+    let Some(b) = h.blocks.get(id) else { return bad() };
+    // usable: a string whose buffer (if it has one) has not been given back by a reset
+    if b.st.is_none() || (b.len > 0 && !b.live) {
+        return bad();
+    }
+    let (ans, oracle, _) = str_do(h, id, op);
+    (ans, oracle)
+}
+
+fn str_do(h: &mut H, id: usize, op: SOp) -> (String, Option<String>, bool) {
+    let b = h.blocks[id].clone();
+    let st = b.st.clone().unwrap();
+    let (beg0, cap0, len0) = (b.beg, b.len, st.len);
+    let (off0, commit0) = (h.off(), h.commit());
+    let tail = cap0 > 0 && beg0 + cap0 == off0;
+    let sd = |salt: u64| 31 * id as u64 + len0 as u64 + salt;
+    // operands, the reference result and the reserve request the real code is specified to make
+    let mut reference = st.reference.clone();
+    let mut text = String::new();
+    let mut old = String::new();
+    let mut at: Option<Option<usize>> = None;
+    // (additional, exact) for `reserve`; None = the operation does not reserve
+    let mut want: Option<(usize, bool)> = None;
+    let mut expect_refused = false;
+    let mut first_cap: Option<usize> = None;
+    match op {
+        SOp::New { cap, n } => {
+            text = apat_str(sd(1), n);
+            reference.push_str(&text);
+            first_cap = Some(cap);
+        }
+        SOp::From { n } => {
+            text = apat_str(sd(1), n);
+            reference.push_str(&text);
+            first_cap = Some(n);
+        }
+        SOp::Push { n } => {
+            text = apat_str(sd(2), n);
+            reference.push_str(&text);
+            want = Some((n, false));
+        }
+        SOp::Char { k } => {
+            reference.push(CHARS[k - 1]);
+            want = Some((CHARS[k - 1].len_utf8(), false));
+        }
+        SOp::Repeat { k, n } => {
+            reference.extend(std::iter::repeat_n(CHARS[k - 1], n));
+            want = Some((CHARS[k - 1].len_utf8() * n, false));
+        }
+        SOp::Reserve { n, exact } => want = Some((n, exact)),
+        SOp::Shrink => {
+            if cap0 > len0 && len0 > 0 && !tail {
+                // `Allocator::shrink` of a block that is not the tail: a debug assertion of the arena
+                return ("bad-op".into(), None, true);
+            }
+        }
+        SOp::Clear => reference.clear(),
+        SOp::Replace { lo, hi, n } => {
+            text = apat_str(sd(3), n);
+            let ok = |i: usize| reference.is_char_boundary(i);
+            if !ok(lo) || hi.is_some_and(|x| !ok(x)) {
+                expect_refused = true;
+            } else {
+                let off = lo.min(len0);
+                let del = hi.unwrap_or(usize::MAX).saturating_sub(off).min(len0 - off);
+                reference.replace_range(off..off + del, &text);
+                if del > 0 || n > 0 {
+                    want = Some((n.saturating_sub(del), false));
+                }
+            }
+        }
+        SOp::Once { pos, k, n } => {
+            text = apat_str(sd(4), n);
+            old = match reference.get(pos..pos.saturating_add(k)) {
+                Some(slice) => slice.to_string(),
+                None => "~".repeat(k),
+            };
+            let found = reference.find(&old);
+            at = Some(found);
+            if let Some(i) = found {
+                reference.replace_range(i..i + old.len(), &text);
+                if !old.is_empty() || n > 0 {
+                    want = Some((n.saturating_sub(old.len()), false));
+                }
+            }
+        }
+    }
+    let cap_want = match (first_cap, want) {
+        (Some(c), _) => c,
+        (None, Some((add, exact))) => reserve_cap(cap0, len0, add, exact),
+        (None, None) => match op {
+            SOp::Shrink if cap0 > len0 => len0,
+            _ => cap0,
+        },
+    };
+    // a request the allocator has to refuse is not executed in this process
+    if cap_want > cap0 {
+        let fits = if tail { off0 + (cap_want - cap0) <= h.cap } else { h.spec_beg(off0, 1) + cap_want <= h.cap };
+        if !fits {
+            let arena: &Arena = unsafe { &*(&**h.arena.as_ref().unwrap() as *const Arena) };
+            let p = h.bptr(beg0);
+            if dies_in_child(|| {
+                str_exec(arena, p, len0, cap0, op, &text, &old);
+            }) {
+                let mut oracle = None;
+                if h.off() != off0 || h.commit() != commit0 {
+                    oracle = Some(format!("refused string growth changed the arena: {}", h.oc()));
+                }
+                return (format!("abort {}", h.oc()), oracle.or_else(|| h.check_all()), false);
+            }
+        }
+    }
+    let arena: &Arena = unsafe { &*(&**h.arena.as_ref().unwrap() as *const Arena) };
+    let seen = str_exec(arena, h.bptr(beg0), len0, cap0, op, &text, &old);
+    let what = format!("string {id}");
+    let beg = seen.ptr.wrapping_sub(h.base);
+    let moved = cap0 > 0 && seen.cap > 0 && seen.ptr != h.base + beg0;
+    let at_txt = match at {
+        Some(Some(i)) => format!(" at={i}"),
+        Some(None) => " at=none".to_string(),
+        None => String::new(),
+    };
+    let head = |h: &H| {
+        let b = if seen.cap == 0 { "-".to_string() } else { beg.to_string() };
+        format!("ok{at_txt} beg={b} len={} cap={} moved={} {}", seen.len, seen.cap, moved as u8, h.oc())
+    };
+    // --- the oracle
+    let mut oracle: Option<String> = None;
+    if seen.len > seen.cap {
+        oracle = Some(format!("{what}: length {} exceeds capacity {}", seen.len, seen.cap));
+    } else if seen.cap > 0 && (seen.ptr < h.base || beg + seen.cap > h.cap || beg + seen.cap > h.commit() || beg + seen.cap > h.off()) {
+        oracle = Some(format!("{what}: buffer [{beg}, {}) outside {} cap {}", beg.wrapping_add(seen.cap), h.oc(), h.cap));
+    }
+    if oracle.is_some() {
+        // not safe to look at: the string is lost
+        let blk = &mut h.blocks[id];
+        blk.live = false;
+        blk.st = None;
+        return (head(h), oracle, true);
+    }
+    if seen.refused != expect_refused {
+        oracle = Some(format!("{what}: replace_range {} although the bounds are{} char boundaries", if seen.refused { "panicked" } else { "went ahead" },
+                              if expect_refused { " not" } else { "" }));
+    } else if seen.refused && (seen.ptr != h.base + beg0 && cap0 > 0 || seen.len != len0 || seen.cap != cap0) {
+        oracle = Some(format!("{what}: a refused replace_range changed the string"));
+    } else if seen.cap != cap_want {
+        oracle = Some(format!("{what}: capacity {} after the operation, std's growth policy gives {cap_want} (was len {len0} cap {cap0})", seen.cap));
+    } else if seen.cap == cap0 && moved {
+        oracle = Some(format!("{what}: buffer moved without growing"));
+    } else if tail && moved {
+        oracle = Some(format!("{what}: tail buffer moved on grow"));
+    } else if moved && beg < off0 {
+        oracle = Some(format!("{what}: buffer moved to {beg} below the old offset {off0}"));
+    } else if seen.len != reference.len() {
+        oracle = Some(format!("{what}: length {} but std::String has {}", seen.len, reference.len()));
+    }
+    let content: Vec<u8> = (0..seen.len).map(|j| unsafe { ((seen.ptr + j) as *const u8).read_volatile() }).collect();
+    if oracle.is_none() {
+        if let Some(j) = (0..seen.len).find(|&j| content[j] != reference.as_bytes()[j]) {
+            oracle = Some(format!("{what}: content differs from std::String at byte {j}"));
+        } else if std::str::from_utf8(&content).is_err() {
+            oracle = Some(format!("{what}: content is not UTF-8"));
+        }
+    }
+    let sum = if seen.cap == 0 { digest_at(h.base as *const u8, 0, 0) } else { digest_at(h.base as *const u8, beg, seen.len) };
+    // --- bookkeeping: the buffer as the owner left it
+    let shadow: Vec<u8> = (0..seen.cap).map(|j| unsafe { ((seen.ptr + j) as *const u8).read_volatile() }).collect();
+    let blk = &mut h.blocks[id];
+    blk.beg = if seen.cap == 0 { 0 } else { beg };
+    blk.len = seen.cap;
+    blk.live = seen.cap > 0;
+    blk.created |= seen.cap > 0;
+    blk.st = Some(StrSt { len: seen.len, shadow, reference: if oracle.is_none() { reference } else { String::from_utf8_lossy(&content).into_owned() } });
+    if matches!(op, SOp::Shrink) && seen.cap < cap0 && seen.cap > 0 {
+        // the tail was lowered: whatever lay above it (zero-sized blocks at the old offset) is gone
+        let m = h.off();
+        h.kill_above(m, Some(id));
+    }
+    let oracle = oracle.or_else(|| h.check_all());
+    if seen.refused {
+        return (format!("refused {}", h.oc()), oracle, true);
+    }
+    (format!("{} sum={sum}", head(h)), oracle, true)
 }
 
 /// `vec` / `vpush`: push `n` elements onto a real `Vec<T, &Arena>` (fresh, or re-adopted full from
